@@ -22,6 +22,7 @@ REQUIRED = [
     "pair:partial-fwd", "pair:partial-rev", "pair:full", "pair:knot-aligned",
     "judged:closest:on-curve", "judged:closest:near", "closest:multimodal-judged", "closest:far-weak",
     "judged:edge-points", "judged:edge-length-exact", "judged:edge-length-approx", "edge:against-curve-direction",
+    "judged:edge-after-vertex-move",
     "edge:along-curve-direction", "spacing:uneven",
 ]
 MIN_KEYS = 150
@@ -613,3 +614,27 @@ def _judge_edge(ctx, env, e, spacing):
         ctx.violation(f"edge-length:{env['kind']}:{direction}-curve-direction",
                       f"{_desc(env)}: OnCurve edge from parameter {ta} to {tb}: Edge.length = {length!r}, curve length between the "
                       f"vertices {lref!r} (tolerance {tol:.3e})")
+        return
+    # ---- history: the mesh was written; now the vertex at t2 is moved along the curve and the edge is read again.
+    # The points / length must follow the vertex (nothing about the first reading may be remembered).
+    if e["n_points"] % 2 == 0 and kind != "discrete":
+        t3 = t1 + 0.55 * (t2 - t1)
+        p3 = np.asarray(lib.get_point(t3), dtype=float)
+        if geom.dist(p3, pa) > 0.02 * ref.size and ref.profile(p3)[1] >= RES_WIDTH:
+            edge = edges[0]
+            moved = edge.vertex_2 if geom.dist(edge.vertex_2.position, pb) < 1e-9 * max(1.0, ref.size) else edge.vertex_1
+            moved.move_to(p3)
+            ctx.count("judged:edge-after-vertex-move")
+            first2, last2 = np.asarray(edge.vertex_1.position, dtype=float), np.asarray(edge.vertex_2.position, dtype=float)
+            ta2, tb2 = (t1, t3) if moved is edge.vertex_2 else (t3, t1)
+            pts2 = [first2, *[np.asarray(p, dtype=float) for p in edge.point_array], last2]
+            if not _on_curve_in_order(ctx, env, pts2, ta2, tb2, tol_on, f"edge-points-after-vertex-move:{kind}",
+                                      f"after moving the vertex from parameter {t2} to {t3}: {len(pts2) - 2} points for vertices at {ta2} -> {tb2}"):
+                return
+            l2 = float(edge.length)
+            lref2 = _ref_length(env, t1, t3)
+            tol2 = 1e-6 * ref.L if kind in xr.EXACT_KINDS else 0.02 * lref2 + 1.1 * env["deficit"] + 1e-6 * ref.L
+            if abs(l2 - lref2) > tol2:
+                ctx.violation(f"edge-length-after-vertex-move:{env['kind']}",
+                              f"{_desc(env)}: after moving the vertex from parameter {t2} to {t3}: Edge.length = {l2!r}, curve length "
+                              f"between the vertices {lref2!r}")
